@@ -189,9 +189,12 @@ pub fn run(pr: &mut PropRun, t: &Tier) {
         let mut cfg = t.cfg(&format!("C08:newton(S=1,{:?})", start));
         cfg.max_decisions = 200;
         run_h!(pr, cfg, newton1, t.seed, start);
-        let mut cfg = t.cfg(&format!("C08:newton(S=2,{:?})", start));
-        cfg.max_decisions = 200;
-        run_h!(pr, cfg, newton2, t.seed, start);
+        // (S=2 with a fully symbolic start: the stopping rule compares square roots of two-term sums, measured 4 min)
+        if start != Start::Symbolic || t.thorough {
+            let mut cfg = t.cfg(&format!("C08:newton(S=2,{:?})", start));
+            cfg.max_decisions = 200;
+            run_h!(pr, cfg, newton2, t.seed, start);
+        }
         let mut cfg = t.cfg(&format!("C08:secant(S=1,{:?})", start));
         cfg.max_decisions = 300;
         run_h!(pr, cfg, secant1, t.seed, start);
